@@ -588,3 +588,397 @@ Proof.
     + pose proof (Hbody h1 ra Hfl) as HB. rewrite Ef in HB. exact HB.
     + destruct Hfl as [-> Hv1]. unfold rc_parse. cbn [rc_fail rc_hdr rc_data rc_trailers rc_valid rc_cr]. rewrite Hv1. reflexivity.
 Qed.
+
+(* ---- request_receiver::receive ---- *)
+(* a call that stops before the end of its buffer does not depend on what follows; a call that ran out of data
+   (INCOMPLETE with everything consumed) is continued exactly by the next call *)
+
+Lemma nonempty_app_l (x b : str) : nonempty x = true -> nonempty (x ++ b) = true.
+Proof. destruct x; [discriminate|reflexivity]. Qed.
+
+Lemma hd_content_length_absent h : nonempty (hd_find h hf_LC_CONTENT_LENGTH) = false -> hd_content_length h = Some 0.
+Proof. unfold hd_content_length. destruct (hd_find h hf_LC_CONTENT_LENGTH); [reflexivity|discriminate]. Qed.
+
+Lemma skipn_nonempty (n : nat) (l : str) : (n < length l)%nat -> skipn n l <> [].
+Proof. intros H E. assert (length (skipn n l) = 0%nat) by (rewrite E; reflexivity). rewrite skipn_length in H0. lia. Qed.
+
+Lemma receive_cl_app cfg rp v x b v3 ra r : receive_cl cfg rp v x = (v3, ra, r) ->
+  (ra <> [] -> receive_cl cfg rp v (x ++ b) = (v3, ra ++ b, r)) /\
+  (ra = [] -> r = RX_INCOMPLETE -> receive_cl cfg rp v (x ++ b) = receive_cl cfg false v3 b).
+Proof.
+  intros H. unfold receive_cl in H. unfold receive_cl at 1 2.
+  set (q1 := rv_req v) in *. set (cl := hd_content_length (rq_headers q1)) in *.
+  set (trace_bad := rq_is_trace q1 && negb match cl with Some 0 => true | _ => false end) in *.
+  set (v2 := if rq_is_trace q1 && negb trace_bad then rv_set_code v code_METHOD_NOT_ALLOWED else v) in *.
+  assert (Hq2 : rv_req v2 = q1) by (unfold v2; destruct (rq_is_trace q1 && negb trace_bad); reflexivity).
+  assert (Hb2 : rv_body v2 = rv_body v) by (unfold v2; destruct (rq_is_trace q1 && negb trace_bad); reflexivity).
+  destruct trace_bad eqn:Etb.
+  { unfold invalid in *. inversion H; subst. split; [reflexivity | intros _ E; discriminate E]. }
+  destruct cl as [n|] eqn:Ecl.
+  2:{ unfold invalid in *. inversion H; subst. split; [reflexivity | intros _ E; discriminate E]. }
+  destruct ((0 <? n) && (c_max_content cfg <? n)) eqn:Ebig.
+  { unfold invalid in *. inversion H; subst. split; [reflexivity | intros _ E; discriminate E]. }
+  rewrite nlen_app'.
+  destruct (nonempty (hd_find (rq_headers q1) hf_LC_CONTENT_LENGTH)) eqn:Ehas.
+  2:{ (* no Content-Length header: the value is 0 *)
+      assert (Hn0 : n = 0).
+      { pose proof (hd_content_length_absent _ Ehas) as E0. unfold cl in Ecl. rewrite E0 in Ecl. inversion Ecl. reflexivity. }
+      subst n. cbn [negb N.eqb andb] in *. rewrite Bool.andb_true_r in *.
+      destruct x as [|c x'].
+      - (* nothing after the head: the call is complete whatever its outcome; it never reports INCOMPLETE with 0 == 0 unless the body is not empty *)
+        replace (0 <? nlen []) with false in H by reflexivity. cbn [andb] in H.
+        set (required := (Z.of_N 0 - Z.of_N (nlen (rv_body v2)))%Z) in *.
+        destruct ((required <? 0)%Z && (required <? Z.of_N (nlen []))%Z) eqn:Eub.
+        + inversion H; subst. split; [intros E; contradiction|intros _ E; discriminate E].
+        + replace (required <? Z.of_N (nlen []))%Z with false in H by (unfold nlen in *; cbn [length] in *; lia).
+          rewrite app_nil_r in H.
+          destruct (nlen (rv_body v2) =? 0) eqn:Eb0.
+          * inversion H; subst. split; [intros E; contradiction|intros _ E; discriminate E].
+          * exfalso. unfold nlen in *. cbn [length] in *. lia.
+      - replace (0 <? nlen (c :: x')) with true in H by (unfold nlen; cbn [length]; lia).
+        replace (0 <? nlen (c :: x') + nlen b) with true by (unfold nlen; cbn [length]; lia).
+        unfold invalid in *. inversion H; subst. split; [reflexivity | intros E; discriminate E]. }
+  cbn [negb] in *. rewrite !Bool.andb_false_r in *.
+  cbn [rv_req rv_chunk rv_body rv_code rv_continue_sent rv_is_head] in *.
+  set (required := (Z.of_N n - Z.of_N (nlen (rv_body v2)))%Z) in *.
+  destruct (required <? 0)%Z eqn:Eneg.
+  { (* data_.size() beyond the content length: undefined whatever follows *)
+    replace (required <? Z.of_N (nlen x))%Z with true in H by (unfold nlen; lia).
+    replace (required <? Z.of_N (nlen x + nlen b))%Z with true by (unfold nlen; lia).
+    cbn [andb] in *. inversion H; subst. split; [reflexivity | intros _ E; discriminate E]. }
+  cbn [andb] in *.
+  destruct (required <? Z.of_N (nlen x))%Z eqn:Elt.
+  - (* the body ends inside x *)
+    replace (required <? Z.of_N (nlen x + nlen b))%Z with true by (unfold nlen in *; lia).
+    assert (Hn : (Z.to_nat required < length x)%nat) by (unfold nlen in Elt; lia).
+    rewrite firstn_app_le, skipn_app_le by lia.
+    pose proof (skipn_nonempty _ _ Hn) as Hsk.
+    destruct (nlen (rv_body v2 ++ firstn (Z.to_nat required) x) =? n).
+    + inversion H; subst. split; [reflexivity | intros E; contradiction].
+    + destruct (rp && rq_expect_continue q1 && negb (rv_continue_sent v2)); inversion H; subst;
+        (split; [reflexivity | intros E; contradiction]).
+  - (* all of x is body *)
+    assert (Hge : (length x <= Z.to_nat required)%nat) by (unfold nlen in Elt; lia).
+    destruct (nlen (rv_body v2 ++ x) =? n) eqn:Efull.
+    { inversion H; subst. split; [intros E; contradiction | intros _ E; discriminate E]. }
+    destruct (rp && rq_expect_continue q1 && negb (rv_continue_sent v2)) eqn:Eexp.
+    { inversion H; subst. split; [intros E; contradiction | intros _ E; discriminate E]. }
+    inversion H; subst. clear H. split; [intros E; contradiction|]. intros _ _.
+    (* TRACE is excluded: a TRACE request has content length 0 and would be complete *)
+    assert (Htr : rq_is_trace q1 = false).
+    { destruct (rq_is_trace q1) eqn:Et; [|reflexivity]. exfalso. cbn [andb] in Etb.
+      destruct n as [|p]; [|discriminate]. unfold nlen in *. rewrite app_length in *. lia. }
+    assert (Hreq : required = (Z.of_N n - Z.of_N (nlen (rv_body v)))%Z) by (unfold required; rewrite Hb2; reflexivity).
+    assert (Hv2 : v2 = v) by (unfold v2; rewrite Htr; reflexivity). rewrite Hv2 in *. clear Hv2.
+    unfold receive_cl. cbn [rv_req rv_body rv_chunk rv_code rv_continue_sent rv_is_head].
+    fold q1. fold cl. rewrite Ecl, Htr. cbn [andb]. rewrite Ebig, Ehas. cbn [negb]. rewrite !Bool.andb_false_r.
+    cbn [rv_req rv_chunk rv_body rv_code rv_continue_sent rv_is_head].
+    rewrite nlen_app'.
+    replace (Z.of_N n - Z.of_N (nlen (rv_body v) + nlen x))%Z with (required - Z.of_N (nlen x))%Z by (rewrite Hreq; lia).
+    replace (required - Z.of_N (nlen x) <? 0)%Z with false by (unfold nlen in *; lia). cbn [andb].
+    destruct (required <? Z.of_N (nlen x + nlen b))%Z eqn:Elt2.
+    + replace (required - Z.of_N (nlen x) <? Z.of_N (nlen b))%Z with true by (unfold nlen in *; lia).
+      rewrite firstn_app_ge, skipn_app_ge by lia.
+      replace (Z.to_nat (required - Z.of_N (nlen x))) with (Z.to_nat required - length x)%nat by (unfold nlen; lia).
+      rewrite <- app_assoc.
+      destruct (nlen (rv_body v ++ x ++ firstn (Z.to_nat required - length x) b) =? n) eqn:Ef2; reflexivity.
+    + replace (required - Z.of_N (nlen x) <? Z.of_N (nlen b))%Z with false by (unfold nlen in *; lia).
+      rewrite <- app_assoc.
+      destruct (nlen (rv_body v ++ x ++ b) =? n) eqn:Ef2; reflexivity.
+Qed.
+
+Lemma rc_data_end_flags L k x k1 rest res : rc_data_end L k x = (k1, rest, res) ->
+  rc_hdr k1 = rc_hdr k /\ rc_trailers k1 = rc_trailers k /\
+  match res with
+  | Done => rc_valid k1 = true
+  | More => rest = [] /\ rc_valid k1 = rc_valid k /\ rc_fail k1 = rc_fail k
+  | Fail => rc_fail k1 = true
+  end.
+Proof.
+  unfold rc_data_end. destruct x as [|c t]; [intros H; inversion H; subst; repeat split|].
+  destruct (rc_cr k).
+  - destruct (c =? 10); intros H; inversion H; subst; repeat split.
+  - destruct (c =? 13).
+    + destruct t as [|d t1]; [intros H; inversion H; subst; repeat split|]. destruct (d =? 10); intros H; inversion H; subst; repeat split.
+    + destruct (strict_crlf L); [intros H; inversion H; subst; repeat split|]. destruct (c =? 10); intros H; inversion H; subst; repeat split.
+Qed.
+
+(* every failure of rx_chunk::parse is recorded in a flag; a complete chunk is marked valid; a chunk that
+   needs more data has consumed everything and is not yet valid *)
+Lemma rc_parse_flags L k buf k1 rest res : rc_parse L k buf = (k1, rest, res) ->
+  match res with
+  | Done => rc_valid k1 = true
+  | More => rest = [] /\ rc_valid k1 = rc_valid k
+  | Fail => rc_failed k1 = true
+  end.
+Proof.
+  unfold rc_parse, rc_failed. destruct (rc_fail k) eqn:Ef; [intros H; inversion H; subst; rewrite Ef; reflexivity|].
+  destruct (if ck_valid (rc_hdr k) then (rc_hdr k, buf, Done) else ck_parse L (rc_hdr k) buf) as [[h1 buf1] r1] eqn:Eh.
+  destruct r1.
+  - destruct (ck_size h1 =? 0).
+    + destruct (hd_parse L _ buf1) as [[t1 buf2] r2] eqn:Et. destruct r2; intros H; inversion H; subst; try reflexivity.
+      * destruct (hd_parse_more L _ _ _ _ Et) as [-> _]. split; reflexivity.
+      * cbn [rc_fail rc_hdr rc_trailers]. rewrite (hd_parse_fail L _ _ _ _ Et). rewrite !Bool.orb_true_r. reflexivity.
+    + match goal with |- context [if ?c then _ else _] => destruct c end.
+      * intros H. destruct (rc_data_end_flags L _ _ _ _ _ H) as [_ [_ F]]. destruct res; [exact F | | rewrite F; reflexivity].
+        destruct F as [F1 [F2 _]]. split; [exact F1 | exact F2].
+      * intros H; inversion H; subst. split; reflexivity.
+  - intros H; inversion H; subst. destruct (ck_valid (rc_hdr k)) eqn:Ev; [inversion Eh|].
+    destruct (ck_parse_flags L _ _ _ _ _ Eh) as [-> _]. split; reflexivity.
+  - intros H; inversion H; subst. cbn [rc_fail rc_hdr rc_trailers].
+    destruct (ck_valid (rc_hdr k)); [inversion Eh|]. unfold ck_parse in Eh. destruct (ck_fail (rc_hdr k)) eqn:Ecf.
+    + inversion Eh; subst. rewrite Ecf, Bool.orb_true_r. reflexivity.
+    + destruct (ck_loop_fail_flag L _ _ _ _ _ Eh Ecf) as [_ F]. rewrite (F eq_refl), Bool.orb_true_r. reflexivity.
+Qed.
+
+Lemma receive_chunked_app cfg rp v x b v3 ra r : rc_ok (rv_chunk v) -> receive_chunked cfg rp v x = (v3, ra, r) ->
+  (ra <> [] -> receive_chunked cfg rp v (x ++ b) = (v3, ra ++ b, r)) /\
+  (ra = [] -> r = RX_INCOMPLETE -> rc_valid (rv_chunk v3) = false ->
+   receive_chunked cfg rp v (x ++ b) = receive_chunked cfg false v3 b).
+Proof.
+  intros Hok H. unfold receive_chunked in H. unfold receive_chunked at 1 2. cbv zeta in H |- *.
+  set (k0 := if rc_valid (rv_chunk v) then rc_clear (rv_chunk v) else rv_chunk v) in *.
+  assert (Hok0 : rc_ok k0) by (unfold k0; destruct (rc_valid (rv_chunk v)); [exact fl_ok_init | exact Hok]).
+  cbn [rv_req rv_chunk rv_body rv_code rv_continue_sent rv_is_head] in *.
+  destruct (rp && rq_expect_continue (rv_req v) && negb (rv_continue_sent v)) eqn:Eexp.
+  { inversion H; subst. split; [reflexivity | intros _ E; discriminate E]. }
+  destruct (rp && negb (c_concat cfg)) eqn:Ehead.
+  { inversion H; subst. split; [reflexivity | intros _ E; discriminate E]. }
+  rewrite (rc_parse_app (c_lim cfg) _ x b Hok0).
+  destruct (rc_parse (c_lim cfg) k0 x) as [[k1 b2] r2] eqn:Ep. pose proof (rc_parse_flags _ _ _ _ _ _ Ep) as Hfl.
+  cbn [rv_req rv_chunk rv_body rv_code rv_continue_sent rv_is_head] in *.
+  destruct r2.
+  - (* a complete chunk *)
+    rewrite Hfl in *.
+    destruct (c_concat cfg) eqn:Ecc.
+    + destruct (rc_is_last k1).
+      * inversion H; subst. split; [reflexivity | intros _ E; discriminate E].
+      * destruct (c_max_content cfg <? nlen (rv_body v) + nlen (rc_data k1)).
+        -- unfold invalid in *. inversion H; subst. split; [reflexivity | intros _ E; discriminate E].
+        -- inversion H; subst. split; [reflexivity|]. intros _ _ Hv. cbn [rv_chunk] in Hv. congruence.
+    + inversion H; subst. split; [reflexivity | intros _ E; discriminate E].
+  - (* ran out of data *)
+    destruct (nonempty b2 || rc_failed k1) eqn:Efail.
+    + unfold invalid in *. inversion H; subst. split; [|intros _ E; discriminate E].
+      intros Hne. exfalso. (* More leaves nothing unread *)
+      destruct Hfl as [Hr _]. subst. contradiction.
+    + apply Bool.orb_false_iff in Efail. destruct Efail as [Hb2 Hnf]. destruct b2; [|discriminate].
+      destruct (rc_valid k1) eqn:Ev1.
+      * (* not reachable: a chunk that needs more data is not valid *)
+        exfalso. destruct Hfl as [_ Hv]. unfold k0 in Hv. destruct (rc_valid (rv_chunk v)) eqn:E0; [discriminate Hv | congruence].
+      * inversion H; subst. split; [intros E; contradiction|]. intros _ _ _.
+        unfold receive_chunked. cbn [rv_req rv_chunk rv_body rv_code rv_continue_sent rv_is_head]. rewrite Ev1.
+        cbn [andb]. reflexivity.
+  - (* an error *)
+    rewrite Hfl, Bool.orb_true_r in H. rewrite Hfl, Bool.orb_true_r.
+    unfold invalid in *. inversion H; subst. split; [reflexivity | intros _ E; discriminate E].
+Qed.
+
+Lemma receive_cl_incomplete_req cfg rp v x v3 ra : receive_cl cfg rp v x = (v3, ra, RX_INCOMPLETE) -> rv_req v3 = rv_req v.
+Proof.
+  unfold receive_cl, invalid.
+  destruct (rq_is_trace (rv_req v) && negb (rq_is_trace (rv_req v) && negb match hd_content_length (rq_headers (rv_req v)) with Some 0 => true | _ => false end)) eqn:E1;
+  destruct (rq_is_trace (rv_req v) && negb match hd_content_length (rq_headers (rv_req v)) with Some 0 => true | _ => false end) eqn:E2;
+  try (intros H; discriminate H);
+  destruct (hd_content_length (rq_headers (rv_req v))) as [n|]; try (intros H; discriminate H);
+  repeat match goal with |- context [if ?c then _ else _] => destruct c end;
+    intros H; inversion H; subst; reflexivity.
+Qed.
+
+Lemma receive_chunked_incomplete_req cfg rp v x v3 ra : receive_chunked cfg rp v x = (v3, ra, RX_INCOMPLETE) -> rv_req v3 = rv_req v.
+Proof.
+  unfold receive_chunked, invalid. cbv zeta.
+  destruct (rp && rq_expect_continue (rv_req v) && _); [intros H; inversion H|].
+  destruct (rp && negb (c_concat cfg)); [intros H; inversion H|].
+  destruct (rc_parse _ _ x) as [[k1 b2] r2].
+  repeat match goal with |- context [if ?c then _ else _] => destruct c end; intros H; inversion H; subst; reflexivity.
+Qed.
+
+Definition rv_ok (v : receiver) : Prop := rq_ok (rv_req v) /\ rc_ok (rv_chunk v).
+
+Lemma rq_parse_flags L q buf q1 rest res : rq_valid q = false -> rq_parse L q buf = (q1, rest, res) ->
+  match res with
+  | Done => rq_valid q1 = true
+  | More => rest = [] /\ rq_valid q1 = false
+  | Fail => True
+  end.
+Proof.
+  intros Hv. unfold rq_parse.
+  destruct (if rl_valid (rq_line q) then (rq_line q, buf, Done) else rl_parse L (rq_line q) buf) as [[l1 b1] r1] eqn:El.
+  destruct r1.
+  - destruct (if hd_valid (rq_headers q) then (rq_headers q, b1, Done) else hd_parse L (rq_headers q) b1) as [[h1 b2] r2] eqn:Eh.
+    destruct r2; intros H; inversion H; subst; try exact I; try reflexivity.
+    destruct (hd_valid (rq_headers q)); [inversion Eh|]. destruct (hd_parse_more L _ _ _ _ Eh) as [-> _]. split; [reflexivity|exact Hv].
+  - intros H; inversion H; subst. destruct (rl_valid (rq_line q)); [inversion El|].
+    destruct (rl_parse_flags L _ _ _ _ _ El) as [-> _]. split; [reflexivity|exact Hv].
+  - intros H; inversion H; subst. exact I.
+Qed.
+
+Lemma rv_eta v : mk_rv (rv_req v) (rv_chunk v) (rv_body v) (rv_code v) (rv_continue_sent v) (rv_is_head v) = v.
+Proof. destruct v; reflexivity. Qed.
+
+Lemma receive_body_app cfg rp v x b v3 ra r : rc_ok (rv_chunk v) -> receive_body cfg rp v x = (v3, ra, r) ->
+  (ra <> [] -> receive_body cfg rp v (x ++ b) = (v3, ra ++ b, r)) /\
+  (ra = [] -> r = RX_INCOMPLETE -> rc_valid (rv_chunk v3) = false ->
+   receive_body cfg rp v (x ++ b) = receive_body cfg false v3 b).
+Proof.
+  intros Hok H. unfold receive_body in H. unfold receive_body at 1 2.
+  destruct (rq_missing_host (rv_req v)) eqn:Emh.
+  { inversion H; subst. split; [reflexivity | intros _ E; discriminate E]. }
+  destruct (negb (hd_is_chunked (rq_headers (rv_req v)))) eqn:Ech.
+  - destruct (receive_cl_app cfg rp v x b v3 ra r H) as [G1 G2]. split; [exact G1|]. intros E1 E2 _.
+    subst. rewrite (G2 eq_refl eq_refl). unfold receive_body.
+    rewrite (receive_cl_incomplete_req _ _ _ _ _ _ H), Emh, Ech. reflexivity.
+  - destruct (receive_chunked_app cfg rp v x b v3 ra r Hok H) as [G1 G2]. split; [exact G1|]. intros E1 E2 E3.
+    subst. rewrite (G2 eq_refl eq_refl E3). unfold receive_body.
+    rewrite (receive_chunked_incomplete_req _ _ _ _ _ _ H), Emh, Ech. reflexivity.
+Qed.
+
+(* request_receiver::receive *)
+Theorem receive_app cfg v a b v1 ra r : rv_ok v -> receive cfg v a = (v1, ra, r) ->
+  (ra <> [] -> receive cfg v (a ++ b) = (v1, ra ++ b, r)) /\
+  (ra = [] -> r = RX_INCOMPLETE -> rc_valid (rv_chunk v1) = false -> receive cfg v (a ++ b) = receive cfg v1 b).
+Proof.
+  intros [Hq Hc] H. unfold receive in H. unfold receive at 1 2. cbv zeta in H |- *.
+  destruct (rq_valid (rv_req v)) eqn:Ev; cbn [negb] in *.
+  - (* the head was complete before this call *)
+    rewrite rv_eta in *.
+    destruct (receive_body_app cfg false v a b v1 ra r Hc H) as [G1 G2]. split; [exact G1|]. intros E1 E2 E3. subst.
+    rewrite (G2 eq_refl eq_refl E3). unfold receive. cbv zeta.
+    assert (Hrq : rv_req v1 = rv_req v).
+    { unfold receive_body in H. destruct (rq_missing_host (rv_req v)); [inversion H|].
+      destruct (negb (hd_is_chunked (rq_headers (rv_req v))));
+        [exact (receive_cl_incomplete_req _ _ _ _ _ _ H) | exact (receive_chunked_incomplete_req _ _ _ _ _ _ H)]. }
+    rewrite Hrq, Ev. cbn [negb]. rewrite <- Hrq, rv_eta. reflexivity.
+  - rewrite (rq_parse_app (c_lim cfg) _ a b Hq).
+    destruct (rq_parse (c_lim cfg) (rv_req v) a) as [[q1 b1] r1] eqn:Ep.
+    pose proof (rq_parse_flags _ _ _ _ _ _ Ev Ep) as Hfl.
+    destruct r1.
+    + (* the head is complete within a *)
+      set (w := mk_rv q1 (rv_chunk v) (rv_body v) (rv_code v) (rv_continue_sent v) (rv_is_head v)) in *.
+      destruct (receive_body_app cfg true w b1 b v1 ra r Hc H) as [G1 G2]. split; [exact G1|]. intros E1 E2 E3. subst.
+      rewrite (G2 eq_refl eq_refl E3). unfold receive. cbv zeta.
+      assert (Hrq : rv_req v1 = q1).
+      { unfold receive_body in H. destruct (rq_missing_host (rv_req w)); [inversion H|].
+        destruct (negb (hd_is_chunked (rq_headers (rv_req w))));
+          [exact (receive_cl_incomplete_req _ _ _ _ _ _ H) | exact (receive_chunked_incomplete_req _ _ _ _ _ _ H)]. }
+      rewrite Hrq, Hfl. cbn [negb]. rewrite <- Hrq, rv_eta. reflexivity.
+    + (* the head is not complete at the end of a *)
+      destruct Hfl as [-> Hv1]. cbn [nonempty orb] in H.
+      destruct (rl_fail (rq_line q1) || hd_fail (rq_headers q1)) eqn:Ef.
+      * unfold invalid in H. inversion H; subst. split; [intros E; contradiction | intros _ E; discriminate E].
+      * inversion H; subst. clear H. split; [intros E; contradiction|]. intros _ _ _.
+        unfold receive. cbv zeta. cbn [rv_req rv_chunk rv_body rv_code rv_continue_sent rv_is_head]. rewrite Hv1. reflexivity.
+    + (* the head is in error *)
+      pose proof (rq_parse_fail _ _ _ _ _ Ep) as F.
+      rewrite <- Bool.orb_assoc in H |- *. rewrite F, !Bool.orb_true_r in H |- *.
+      unfold invalid in *. inversion H; subst. split; [reflexivity | intros _ E; discriminate E].
+Qed.
+
+(* ---- the invariant holds in every state a connection can reach ---- *)
+Lemma rq_parse_ok L q buf q1 rest r : rq_ok q -> rq_parse L q buf = (q1, rest, r) -> rq_ok q1.
+Proof.
+  unfold rq_ok, rq_parse. intros Hok.
+  destruct (if rl_valid (rq_line q) then (rq_line q, buf, Done) else rl_parse L (rq_line q) buf) as [[l1 b1] r1].
+  destruct r1; try (intros H; inversion H; subst; exact Hok).
+  destruct (hd_valid (rq_headers q)) eqn:Ev.
+  - intros H; inversion H; subst. exact Hok.
+  - destruct (hd_parse L (rq_headers q) b1) as [[h1 b2] r2] eqn:Eh.
+    pose proof (hd_parse_ok L _ _ _ _ _ Hok Eh) as H1. destruct r2; intros H; inversion H; subst; exact H1.
+Qed.
+
+Lemma rc_data_end_ok L k x k1 rest r : rc_ok k -> rc_data_end L k x = (k1, rest, r) -> rc_ok k1.
+Proof. unfold rc_ok. intros Hok H. destruct (rc_data_end_flags L _ _ _ _ _ H) as [_ [Ht _]]. rewrite Ht. exact Hok. Qed.
+
+Lemma rc_parse_ok L k buf k1 rest r : rc_ok k -> rc_parse L k buf = (k1, rest, r) -> rc_ok k1.
+Proof.
+  unfold rc_parse. intros Hok. destruct (rc_fail k); [intros H; inversion H; subst; exact Hok|].
+  destruct (if ck_valid (rc_hdr k) then (rc_hdr k, buf, Done) else ck_parse L (rc_hdr k) buf) as [[h1 buf1] r1].
+  destruct r1; try (intros H; inversion H; subst; exact Hok).
+  destruct (ck_size h1 =? 0).
+  - destruct (hd_parse L _ buf1) as [[t1 buf2] r2] eqn:Et.
+    pose proof (hd_parse_ok L _ _ _ _ _ Hok Et) as H1. destruct r2; intros H; inversion H; subst; exact H1.
+  - match goal with |- context [if ?c then _ else _] => destruct c end.
+    + intros H. eapply rc_data_end_ok; [|exact H]. exact Hok.
+    + intros H; inversion H; subst. exact Hok.
+Qed.
+
+Lemma rv_ok_init cfg : rv_ok (rv_init cfg).
+Proof. split; exact fl_ok_init. Qed.
+
+Lemma rv_ok_clear v : rv_ok (rv_clear v).
+Proof. split; exact fl_ok_init. Qed.
+
+Lemma receive_cl_ok cfg rp v x v3 ra r : rv_ok v -> receive_cl cfg rp v x = (v3, ra, r) -> rv_ok v3.
+Proof.
+  intros [Hq Hc]. unfold receive_cl, invalid.
+  set (v2 := if rq_is_trace (rv_req v) && _ then rv_set_code v code_METHOD_NOT_ALLOWED else v).
+  assert (H2 : rv_ok v2) by (unfold v2; match goal with |- context [if ?c then _ else _] => destruct c end; split; assumption).
+  destruct H2 as [H2q H2c].
+  repeat match goal with |- context [if ?c then _ else _] => destruct c | |- context [match ?c with Some _ => _ | None => _ end] => destruct c end;
+    intros H; inversion H; subst; try apply rv_ok_clear; try (split; assumption); split; cbn; assumption.
+Qed.
+
+Lemma receive_chunked_ok cfg rp v x v3 ra r : rv_ok v -> receive_chunked cfg rp v x = (v3, ra, r) -> rv_ok v3.
+Proof.
+  intros [Hq Hc]. unfold receive_chunked, invalid. cbv zeta.
+  set (k0 := if rc_valid (rv_chunk v) then rc_clear (rv_chunk v) else rv_chunk v).
+  assert (Hok0 : rc_ok k0) by (unfold k0; destruct (rc_valid (rv_chunk v)); [exact fl_ok_init | exact Hc]).
+  destruct (rp && rq_expect_continue (rv_req v) && _); [intros H; inversion H; subst; split; assumption|].
+  destruct (rp && negb (c_concat cfg)); [intros H; inversion H; subst; split; assumption|].
+  destruct (rc_parse (c_lim cfg) k0 x) as [[k1 b2] r2] eqn:Ep. pose proof (rc_parse_ok _ _ _ _ _ _ Hok0 Ep) as Hk1.
+  repeat match goal with |- context [if ?c then _ else _] => destruct c end;
+    intros H; inversion H; subst; try apply rv_ok_clear; split; cbn; assumption.
+Qed.
+
+Lemma receive_ok cfg v buf v1 rest r : rv_ok v -> receive cfg v buf = (v1, rest, r) -> rv_ok v1.
+Proof.
+  intros [Hq Hc]. unfold receive. cbv zeta.
+  destruct (if negb (rq_valid (rv_req v)) then rq_parse (c_lim cfg) (rv_req v) buf else (rv_req v, buf, Done)) as [[q1 b1] r1] eqn:Ep.
+  assert (Hq1 : rq_ok q1).
+  { destruct (negb (rq_valid (rv_req v))); [exact (rq_parse_ok _ _ _ _ _ _ Hq Ep) | inversion Ep; subst; exact Hq]. }
+  set (w := mk_rv q1 (rv_chunk v) (rv_body v) (rv_code v) (rv_continue_sent v) (rv_is_head v)).
+  assert (Hw : rv_ok w) by (split; assumption).
+  destruct r1.
+  - unfold receive_body. destruct (rq_missing_host (rv_req w)); [intros H; inversion H; subst; exact Hw|].
+    destruct (negb (hd_is_chunked (rq_headers (rv_req w)))); [apply receive_cl_ok | apply receive_chunked_ok]; exact Hw.
+  - unfold invalid. match goal with |- context [if ?c then _ else _] => destruct c end; intros H; inversion H; subst; [apply rv_ok_clear | exact Hw].
+  - unfold invalid. match goal with |- context [if ?c then _ else _] => destruct c end; intros H; inversion H; subst; [apply rv_ok_clear | exact Hw].
+Qed.
+
+Lemma dispatch_ok cfg v r : rv_ok v -> rv_ok (fst (dispatch_rx cfg v r)).
+Proof.
+  intros Hok. unfold dispatch_rx. destruct r.
+  - apply rv_ok_clear.
+  - destruct Hok; split; assumption.
+  - exact Hok.
+  - destruct (negb (rq_is_trace (rv_req v))); [|apply rv_ok_clear].
+    destruct (hd_is_chunked (rq_headers (rv_req v)) && negb (c_concat cfg)); [exact Hok | apply rv_ok_clear].
+  - destruct (rc_is_last (rv_chunk v)); [apply rv_ok_clear | exact Hok].
+  - exact Hok.
+Qed.
+
+Lemma rx_loop_ok cfg : forall fuel v buf, rv_ok v -> rv_ok (fst (fst (fst (rx_loop fuel cfg v buf)))).
+Proof.
+  induction fuel as [|fuel IH]; intros v buf Hok; destruct buf as [|c t]; cbn [rx_loop fst]; try exact Hok.
+  destruct (receive cfg v (c :: t)) as [[v1 rest] r] eqn:Er. pose proof (receive_ok _ _ _ _ _ _ Hok Er) as H1.
+  pose proof (dispatch_ok cfg v1 r H1) as H2. destruct (dispatch_rx cfg v1 r) as [v2 evs]. cbn [fst] in H2.
+  destruct r; try (specialize (IH v2 rest H2); destruct (rx_loop fuel cfg v2 rest) as [[[v3 e3] c3] o3]; exact IH); exact H2.
+Qed.
+
+Lemma feed_ok cfg : forall frags v, rv_ok v -> rv_ok (fst (fst (fst (feed cfg v frags)))).
+Proof.
+  induction frags as [|f t IH]; intros v Hok; cbn [feed fst]; [exact Hok|].
+  pose proof (rx_loop_ok cfg (loop_fuel f) v f Hok) as H1. unfold read_loop.
+  destruct (rx_loop (loop_fuel f) cfg v f) as [[[v1 e1] c1] o1]. cbn [fst] in H1.
+  specialize (IH v1 H1). destruct (feed cfg v1 t) as [[[v2 e2] c2] o2]. exact IH.
+Qed.
+
+(* in every state a connection can be in after any sequence of reads, a receive call that stops before the end
+   of its buffer does not depend on what follows, and one that ran out of data is continued exactly *)
+Theorem receive_app_reachable cfg history a b v1 ra r :
+  let v := fst (fst (fst (feed cfg (rv_init cfg) history))) in
+  receive cfg v a = (v1, ra, r) ->
+  (ra <> [] -> receive cfg v (a ++ b) = (v1, ra ++ b, r)) /\
+  (ra = [] -> r = RX_INCOMPLETE -> rc_valid (rv_chunk v1) = false -> receive cfg v (a ++ b) = receive cfg v1 b).
+Proof. intros v. apply receive_app. exact (feed_ok cfg history _ (rv_ok_init cfg)). Qed.
